@@ -162,9 +162,15 @@ impl Response {
 
     pub fn drop_content(&mut self) -> Content {
         let old_content = self.content.take();
+        // Without content, the length is zero. Declaring nothing would leave
+        // the client unable to tell where the response ends.
         self.headers.set()
             .ContentType(None)
-            .ContentLength(None);
+            .ContentLength("0");
+        #[cfg(feature="sse")]
+        if matches!(old_content, Content::Stream(_)) {
+            self.headers.set().TransferEncoding(None);
+        }
         old_content
     }
     pub fn without_content(mut self) -> Self {
